@@ -33,6 +33,7 @@ type tr struct {
 	params   map[string]bool // declared parameters / results / locals
 	extra    []string        // mangled selector parameters in order of first appearance
 	extraSet map[string]bool
+	extraTy  map[string]string // Lean type of an extra parameter (default Nat)
 	assigned map[string]bool // mangled selectors that are assigned somewhere (mutable)
 	results  []string        // named results
 	resTypes []string
@@ -102,6 +103,28 @@ func (t *tr) selector(e ast.Expr) (string, bool) {
 	if !t.extraSet[m] {
 		t.extraSet[m] = true
 		t.extra = append(t.extra, m)
+	}
+	return m, true
+}
+
+// selectorTyped registers a mangled selector parameter with an explicit Lean type
+func (t *tr) selectorTyped(e ast.Expr, suffix, leanTy string) (string, bool) {
+	r := rootIdent(e)
+	if r == "" || !t.params[r] {
+		return "", false
+	}
+	m, ok := mangle(e)
+	if !ok {
+		return "", false
+	}
+	m += suffix
+	if !t.extraSet[m] {
+		t.extraSet[m] = true
+		t.extra = append(t.extra, m)
+		if t.extraTy == nil {
+			t.extraTy = map[string]string{}
+		}
+		t.extraTy[m] = leanTy
 	}
 	return m, true
 }
@@ -250,6 +273,10 @@ func (t *tr) expr(e ast.Expr) string {
 				return "(wrapInt (" + x + " - " + y + "))"
 			case token.MUL:
 				return "(wrapInt (" + x + " * " + y + "))"
+			case token.REM:
+				return "(Int.tmod " + x + " " + y + ")"
+			case token.QUO:
+				return "(Int.tdiv " + x + " " + y + ")"
 			}
 			return t.fail("int op %s", src(v))
 		}
@@ -325,6 +352,21 @@ func (t *tr) expr(e ast.Expr) string {
 		for _, a := range v.Args {
 			args = append(args, t.argExpr(a))
 		}
+		if sel, ok := v.Fun.(*ast.SelectorExpr); ok && len(v.Args) > 0 {
+			if r := rootIdent(sel); r != "" && t.params[r] && !isPkgName(r) {
+				var tys []string
+				for _, a := range v.Args {
+					if t.typeOf(a) == "int" {
+						tys = append(tys, "Int")
+					} else {
+						tys = append(tys, "Nat")
+					}
+				}
+				if m, ok := t.selectorTyped(sel, "", strings.Join(tys, " → ")+" → Nat"); ok {
+					return "(" + m + " " + strings.Join(args, " ") + ")"
+				}
+			}
+		}
 		switch fun := v.Fun.(type) {
 		case *ast.Ident:
 			name := fun.Name
@@ -374,6 +416,13 @@ func (t *tr) cond(e ast.Expr) string {
 		return "(" + t.cond(v.X) + ")"
 	case *ast.Ident:
 		return "(" + v.Name + " = true)"
+	case *ast.CallExpr:
+		// a boolean observation of a parameter object (`bb.IsZero()`): an uninterpreted Bool parameter
+		if len(v.Args) == 0 {
+			if m, ok := t.selectorTyped(v, "", "Bool"); ok {
+				return "(" + m + " = true)"
+			}
+		}
 	case *ast.UnaryExpr:
 		if v.Op == token.NOT {
 			return "(¬ " + t.cond(v.X) + ")"
@@ -386,6 +435,15 @@ func (t *tr) cond(e ast.Expr) string {
 			return "(" + t.cond(v.X) + " ∨ " + t.cond(v.Y) + ")"
 		case token.EQL, token.NEQ, token.LSS, token.GTR, token.LEQ, token.GEQ:
 			op := map[token.Token]string{token.EQL: "=", token.NEQ: "≠", token.LSS: "<", token.GTR: ">", token.LEQ: "≤", token.GEQ: "≥"}[v.Op]
+			// pointer tests of a table/field of a parameter: an uninterpreted Bool parameter
+			if id, ok := v.Y.(*ast.Ident); ok && id.Name == "nil" && (v.Op == token.EQL || v.Op == token.NEQ) && t.typeOf(v.X) != "error" {
+				if m, ok := t.selectorTyped(v.X, "_nonnil", "Bool"); ok {
+					if v.Op == token.NEQ {
+						return "(" + m + " = true)"
+					}
+					return "(" + m + " = false)"
+				}
+			}
 			x, y := t.expr(v.X), t.expr(v.Y)
 			// comparison of an int-typed expression with an untyped literal stays in Int
 			if t.typeOf(v.X) == "int" || t.typeOf(v.Y) == "int" {
@@ -421,7 +479,10 @@ func leanType(goType string) string {
 }
 
 func (t *tr) funcLit(f *ast.FuncLit) string {
-	sub := &tr{fn: t.fn, params: map[string]bool{}, extraSet: t.extraSet, assigned: t.assigned, known: t.known, types: map[string]string{}}
+	if t.extraTy == nil {
+		t.extraTy = map[string]string{}
+	}
+	sub := &tr{fn: t.fn, params: map[string]bool{}, extraSet: t.extraSet, extraTy: t.extraTy, assigned: t.assigned, known: t.known, types: map[string]string{}}
 	for k, v := range t.params {
 		sub.params[k] = v
 	}
@@ -837,7 +898,11 @@ func (t *tr) forLoop(v *ast.ForStmt, rest, k []ast.Stmt) string {
 	}
 	var params []string
 	for _, f := range free {
-		params = append(params, "("+f+" : "+leanType(t.types[f])+")")
+		ty := leanType(t.types[f])
+		if t.extraTy != nil && t.extraTy[f] != "" {
+			ty = t.extraTy[f]
+		}
+		params = append(params, "("+f+" : "+ty+")")
 	}
 	stTypes := make([]string, len(state))
 	for i, s := range state {
@@ -867,7 +932,7 @@ func (f *fn) leanName() string {
 
 // translateFn returns the Lean definitions (loops first) for one function
 func translateFn(f *fn, known map[string]string, retTypes map[string]string) string {
-	t := &tr{fn: f, params: map[string]bool{}, extraSet: map[string]bool{}, assigned: map[string]bool{}, known: known, types: map[string]string{}}
+	t := &tr{fn: f, params: map[string]bool{}, extraSet: map[string]bool{}, extraTy: map[string]string{}, assigned: map[string]bool{}, known: known, types: map[string]string{}}
 	for k, v := range retTypes {
 		t.types["ret:"+k] = v
 	}
@@ -906,7 +971,11 @@ func translateFn(f *fn, known map[string]string, retTypes map[string]string) str
 	body := t.funcBody(f.decl.Type, f.decl.Body)
 	var extra []string
 	for _, e := range t.extra {
-		extra = append(extra, "("+e+" : Nat)")
+		ty := "Nat"
+		if t.extraTy != nil && t.extraTy[e] != "" {
+			ty = t.extraTy[e]
+		}
+		extra = append(extra, "("+e+" : "+ty+")")
 	}
 	var b strings.Builder
 	if t.failed != "" {
@@ -970,6 +1039,124 @@ func writeCode(funcs map[string]*fn, path string) {
 			retTypes[parts[len(parts)-1]] = src(f.decl.Type.Results.List[0].Type)
 		}
 	}
+	for _, sp := range suffixList {
+		f, ok := funcs[sp.key]
+		if !ok {
+			fmt.Fprintf(&b, "/-- %s: function not found in the source -/\ndef go_%s_%s : Unsupported := ⟨\"missing\"⟩\n\n", sp.key, strings.ReplaceAll(sp.key, ".", "_"), sp.name)
+			continue
+		}
+		b.WriteString(translateSuffix(f, sp, known, retTypes))
+	}
 	b.WriteString("end Algobra.Gen.Code\n")
 	writeFile(path, b.String())
+}
+
+// ---------------------------------------------------------------------------------------------
+// suffix extraction: translate the statements of a method from the first top-level statement whose
+// source starts with `from` to the end of the body; `return <receiver>` returns the assigned selectors.
+// Used for the arithmetic cores of methods whose heads are type assertions and error checks.
+
+type suffixSpec struct {
+	key  string // function key
+	from string // prefix of the normalised source of the first statement of the suffix
+	name string // Lean name suffix
+}
+
+var suffixList = []suffixSpec{
+	{"primefield.Element.Add", "if a.field.addTable != nil", "core"},
+	{"primefield.Element.Sub", "if a.val >= bb.val", "core"},
+	{"primefield.Element.Prod", "if bb.IsZero() || cc.IsZero()", "core"},
+	{"primefield.Element.SetNeg", "a.val = ", "core"},
+	{"primefield.Element.Inv", "r0 := a.field.char", "core"},
+	{"primefield.Field.ElementFromSigned", "val %= int(f.char)", "core"},
+	{"binfield.Element.Add", "a.val ^= bb.val", "core"},
+	{"binfield.Element.Prod", "res := uint(0)", "core"},
+}
+
+func translateSuffix(f *fn, spec suffixSpec, known map[string]string, retTypes map[string]string) string {
+	t := &tr{fn: f, params: map[string]bool{}, extraSet: map[string]bool{}, extraTy: map[string]string{}, assigned: map[string]bool{}, known: known, types: map[string]string{}}
+	for k, v := range retTypes {
+		t.types["ret:"+k] = v
+	}
+	name := f.leanName() + "_" + spec.name
+	var ps []string
+	if f.decl.Recv != nil && len(f.decl.Recv.List) > 0 && len(f.decl.Recv.List[0].Names) > 0 {
+		t.recvName = f.decl.Recv.List[0].Names[0].Name
+		t.params[t.recvName] = true
+		t.types[t.recvName] = "object"
+	}
+	for _, fld := range f.decl.Type.Params.List {
+		ty := src(fld.Type)
+		for _, n := range fld.Names {
+			t.params[n.Name] = true
+			t.types[n.Name] = ty
+			if ty == "uint" || ty == "int" || ty == "bool" || ty == "[2]uint" {
+				ps = append(ps, "("+n.Name+" : "+leanType(ty)+")")
+			} else {
+				t.types[n.Name] = "object"
+			}
+		}
+	}
+	// locals bound in the skipped head by type assertions (`bb, ok := b.(*Element)`) are objects too
+	start := -1
+	for i, s := range f.decl.Body.List {
+		if strings.HasPrefix(src(s), spec.from) {
+			start = i
+			break
+		}
+		ast.Inspect(s, func(n ast.Node) bool {
+			if a, ok := n.(*ast.AssignStmt); ok && a.Tok == token.DEFINE {
+				for _, l := range a.Lhs {
+					if id, ok := l.(*ast.Ident); ok && id.Name != "_" {
+						t.params[id.Name] = true
+						t.types[id.Name] = "object"
+					}
+				}
+			}
+			return true
+		})
+	}
+	var b strings.Builder
+	if start < 0 {
+		fmt.Fprintf(&b, "/-- %s: statement starting with %q not found -/\ndef %s : Unsupported := ⟨\"suffix start not found\"⟩\n\n", f.key, spec.from, name)
+		return b.String()
+	}
+	stmts := f.decl.Body.List[start:]
+	for _, s := range stmts {
+		ast.Inspect(s, func(n ast.Node) bool {
+			if a, ok := n.(*ast.AssignStmt); ok {
+				for _, l := range a.Lhs {
+					if _, isId := l.(*ast.Ident); !isId {
+						if m, ok := t.selector(l); ok {
+							t.assigned[m] = true
+						}
+					}
+				}
+			}
+			return true
+		})
+	}
+	saved := f.decl.Name.Name
+	_ = saved
+	t.fn = &fn{pkg: f.pkg, decl: f.decl, key: f.key + "_" + spec.name}
+	body := t.stmts(stmts, nil)
+	if t.failed != "" {
+		fmt.Fprintf(&b, "/-- %s (suffix from %q): NOT TRANSLATED (%s) -/\ndef %s : Unsupported := ⟨%s⟩\n\n", f.key, spec.from, strings.ReplaceAll(t.failed, "-/", "- /"), name, leanStr(t.failed))
+		return b.String()
+	}
+	var extra []string
+	for _, e := range t.extra {
+		ty := "Nat"
+		if t.extraTy[e] != "" {
+			ty = t.extraTy[e]
+		}
+		extra = append(extra, "("+e+" : "+ty+")")
+	}
+	for _, l := range t.loops {
+		b.WriteString(l)
+		b.WriteString("\n")
+	}
+	fmt.Fprintf(&b, "/-- translated from %s, statements from `%s` to the end of the body -/\ndef %s %s :=\n  %s\n\n", f.key, spec.from, name,
+		strings.TrimSpace(strings.Join(append(extra, ps...), " ")), body)
+	return b.String()
 }
